@@ -83,7 +83,19 @@ type c17Cloud struct {
 	yield int
 }
 
+// c17Foreign is a vSwitch of the account that no caller ever lists.
+const c17Foreign = "vsw-foreign"
+
+// DescribeVSwitchByID answers as the real client does (pkg/aliyun/client/vsw_default.go):
+// the id is only the VSwitchId FILTER of DescribeVSwitches and VSwitch[0] of the answer
+// is returned. A filter that matches nothing gives ErrNotFound; NO filter (empty id)
+// gives the first vSwitch of the account - here a foreign one, in zone-0, with free
+// addresses. Nothing in the unchanged code asks with an empty id.
 func (c *c17Cloud) DescribeVSwitchByID(_ context.Context, id string) (*vpc.VSwitch, error) {
+	if id == "" {
+		return &vpc.VSwitch{VSwitchId: c17Foreign, ZoneId: c17Zone(0), AvailableIpAddressCount: 4000,
+			CidrBlock: "172.16.0.0/16", Ipv6CidrBlock: "fd00:ffff::/64"}, nil
+	}
 	i, ok := c17Idx(id)
 	c.mu.Lock()
 	y := c.yield
@@ -281,6 +293,16 @@ func c17Expect(zone int, policy string, ignoreZone bool, ids []int, views []c17V
 	fallback = !inZone && len(pool) > 0
 	if len(pool) == 0 {
 		if err == nil || got != nil {
+			if got != nil {
+				inList := false
+				gi, ok := c17Idx(got.ID)
+				for _, id := range ids {
+					inList = inList || (ok && id == gi)
+				}
+				if !inList {
+					return fmt.Sprintf("GetOne returned %s which is not in the caller's candidate list (and no candidate is eligible)", c17SwStr(got)), pool, fallback
+				}
+			}
 			return fmt.Sprintf("no eligible candidate but GetOne returned %s, err=%v", c17SwStr(got), err), pool, fallback
 		}
 		return "", pool, fallback
